@@ -152,7 +152,7 @@ def doRead (s : Str) : String :=
   let b := buildS (build? es)
   let p := match firstViolation none 0 es with | none => "ok" | some i => s!"viol:{i}"
   let d := runDepth .needRoot [0] s
-  s!"{verdictS n r.2} # EV {joinSp (r.1.map (leventS n))} # W {w} # B {b} # T {traceS (trace? s)} # P {p} # D {d}{agree}"
+  s!"{verdictS n r.2} # EV {joinSp (es.map eventS)} # W {w} # B {b} # T {traceS (trace? s)} # P {p} # D {d}{agree}"
 
 def doEvs (es : List Event) : String :=
   let w := match write? es with | some t => hexStr t | none => "panic"
@@ -208,18 +208,6 @@ def someS : Option Nat → String
   | some n => s!"some {n}"
   | none => "none"
 
-def allDigits (s : Str) : Bool := !s.isEmpty && s.all isDigit
-def digitsVal (s : Str) : Nat := s.foldl (fun a c => 10 * a + digitVal c) 0
-
-/-- `TryInto<Number> for String` (after fix D8): `parse::<u16>` then the range check.
-    `u16::from_str` accepts an optional leading `+`. -/
-def numberOfString (s : Str) : Option Nat :=
-  let body := match s with | '+' :: r => r | _ => s
-  if allDigits body then
-    let v := digitsVal body
-    if v < 65536 then (Number.ofNat? v).map (·.val) else none
-  else none
-
 def doConv (name : String) (arg : String) : String :=
   match name with
   | "charge" => match arg.toInt? with
@@ -228,7 +216,7 @@ def doConv (name : String) (arg : String) : String :=
   | "hcount" => match arg.toNat? with | some n => someS ((VirtualHydrogen.ofNat? n).map (·.val)) | none => "bad"
   | "rnum" => match arg.toNat? with | some n => someS ((Rnum.ofNat? n).map (·.val)) | none => "bad"
   | "number" => match arg.toNat? with | some n => someS ((Number.ofNat? n).map (·.val)) | none => "bad"
-  | "numstr" => match unhex arg with | some s => someS (numberOfString s) | none => "bad"
+  | "numstr" => match unhex arg with | some s => someS ((Number.ofString? s).map (·.val)) | none => "bad"
   | "baro2aro" => match arg.toNat? >>= (BracketAromatic.all[·]?) with
     | some a => someS ((Aromatic.ofBracketAromatic? a).map (idxOf Aromatic.all)) | none => "bad"
   | "el2ali" => match arg.toNat? >>= (Element.all[·]?) with
